@@ -15,6 +15,7 @@ from props import base
 from common import Codec
 
 VALS = [0, 1, 2, 'a', 'b' * 12, b'y' * 20, None, (1, 2), 3.5, [1] * 9]
+UNSTORABLE = 'x\ud800'       # text SQLite / UTF-8 cannot hold: must be rejected, never altered (C01)
 EQUAL_SPELLINGS = [1.0, 2.0, 0.0, 'zz', 7]     # equal to a stored value under ==, or absent
 
 
@@ -31,7 +32,7 @@ def gen_history(rng, length):
                          2, 2, 1, 2, 2, 3, 0.5, 0.5, 0.5])[0]
         op = {'m': m, 'now': 1000}
         if m in ('append', 'appendleft', 'setitem'):
-            op['v'] = rng.choice(VALS)
+            op['v'] = rng.choice(VALS) if (rng.random() > 0.04 or m == 'setitem') else UNSTORABLE
         if m in ('count', 'remove'):
             op['v'] = rng.choice(VALS + EQUAL_SPELLINGS)
         if m in ('extend', 'extendleft', 'iadd'):
@@ -57,6 +58,8 @@ def apply_mirror(d, op, rng):
     """keep a collections.deque in step while generating, so that comparison operands can be near
     misses of the current contents (equal, one element changed, a prefix, one longer)"""
     m = op['m']
+    if op.get('v') == UNSTORABLE and m in ('append', 'appendleft', 'setitem'):
+        return d
     try:
         if m == 'append':
             d.append(op['v'])
@@ -108,6 +111,15 @@ def acceptor(hist, io):
     d = collections.deque(maxlen=ml)
     for idx, (op, res) in enumerate(base.results_of(hist, io)):
         m = op['m']
+        if op.get('v') == UNSTORABLE and m in ('append', 'appendleft', 'setitem'):
+            # a value that cannot be stored is rejected with an exception and nothing changes
+            if m == 'setitem' and not (-len(d) <= op['i'] < len(d)):
+                want = '!IndexError'
+            else:
+                want = '!UnicodeEncodeError'
+            if res != want:
+                return 'op #%d %s of an unstorable text: Deque gave %s, expected %s and no change' % (idx, m, res[:60], want)
+            continue
         try:
             if m == 'append':
                 d.append(op['v']); want = 'n'
